@@ -19,9 +19,11 @@ CONSTANTS W,          \* the workflow (see Graph.tla)
           SubmitFail, \* set of tasks whose job submission may fail
           Faults,     \* [dup |-> Nat, reorder |-> BOOLEAN, crash |-> Nat]  fault budget
           StopAt,     \* stop point requested at start-up, or NoPoint
-          CmdBudget   \* how many operator commands (hold / release / hold point / stop point) a behaviour may contain
+          CmdBudget,  \* how many operator commands a behaviour may contain
+          SetOuts,    \* which outputs "cylc set --out" may name in this configuration
+          CmdKinds    \* which commands: subset of {"hold", "release", "holdpt", "relall", "stoppt", "stopnow", "trigger", "set"}
 
-VARIABLES pool,     \* [id -> [st, rh, queued, held, outs, sat, sub, efail, sfail]]  the n=0 window
+VARIABLES pool,     \* [id -> [st, rh, queued, held, manual, outs, sat, sub, efail, sfail]]  the n=0 window
           rhl,      \* cached runahead limit (NoPoint before the first computation)
           rhbase,   \* base point of the cached limit
           q,        \* [queue name -> Seq(id)]  FIFO queues
@@ -39,9 +41,11 @@ VARIABLES pool,     \* [id -> [st, rh, queued, held, outs, sat, sub, efail, sfai
           tohold,   \* TaskPool.tasks_to_hold: ids (pooled or future) that are / are to be held
           holdpt,   \* TaskPool.hold_point, or NoPoint
           stopcmd,  \* stop point set by command at run time, or NoPoint
-          cb        \* remaining command budget
-ctl == <<holdpt, stopcmd, cb>>
-vars == <<pool, rhl, rhbase, q, cmds, jobs, net, acks, stopped, fb, db, done, ran, futseen, maxfut, tohold, holdpt, stopcmd, cb>>
+          cb,       \* remaining command budget
+          trig,     \* TaskPool.tasks_to_trigger_now: manually triggered tasks to be submitted by the next release step
+          fset      \* history: ids whose outputs were (partly) set by "cylc set", or that were triggered twice in a row (see CmdTrigger)
+ctl == <<holdpt, stopcmd, cb, trig, fset>>
+vars == <<pool, rhl, rhbase, q, cmds, jobs, net, acks, stopped, fb, db, done, ran, futseen, maxfut, tohold, holdpt, stopcmd, cb, trig, fset>>
 
 Name(id) == id[1]
 Pt(id) == id[2]
@@ -60,7 +64,7 @@ HeldAtSpawn(id) == id \in tohold \/ (holdpt # NoPoint /\ Pt(id) > holdpt)
 HoldAfter == (tohold \cup {i \in DOMAIN pool' \ DOMAIN pool : holdpt # NoPoint /\ Pt(i) > holdpt})
              \ (DOMAIN pool \ DOMAIN pool')
 NewTask(id) ==
-  [st |-> "waiting", rh |-> TRUE, queued |-> FALSE, held |-> HeldAtSpawn(id), outs |-> {},
+  [st |-> "waiting", rh |-> TRUE, queued |-> FALSE, held |-> HeldAtSpawn(id), manual |-> FALSE, outs |-> {},
    sat |-> InitSatKeys(W, Name(id), Pt(id)), sub |-> 0, efail |-> 0, sfail |-> 0]
 
 (* TaskPool.spawn_task: not beyond bounds, not if it already ran (history),  *)
@@ -156,7 +160,7 @@ ComputeRunahead ==
      IN /\ (rhl = NoPoint \/ (base # rhbase /\ ~(rhl = StopPt /\ base > rhbase)))
         /\ rhl' = lim /\ rhbase' = base
   /\ UNCHANGED <<pool, q, cmds, jobs, net, acks, stopped, fb, db, done, ran, futseen, maxfut>>
-  /\ UNCHANGED <<tohold, holdpt, stopcmd, cb>>
+  /\ UNCHANGED <<tohold, holdpt, stopcmd, cb, trig, fset>>
 
 (* TaskPool.release_runahead_tasks: everything at or below the cached limit; *)
 (* each released task spawns its next parentless instance.                  *)
@@ -185,13 +189,14 @@ Ready(id) == LET r == pool[id] IN
 
 (* TaskPool.queue_if_ready *)
 QueueIfReady(id) ==
-  /\ stopped = "no" /\ id \in DOMAIN pool /\ Ready(id) /\ ~pool[id].queued
+  /\ stopped = "no" /\ id \in DOMAIN pool /\ Ready(id) /\ ~pool[id].queued /\ ~pool[id].manual
   /\ pool' = [pool EXCEPT ![id].queued = TRUE]
   /\ q' = [q EXCEPT ![QueueOf(W, Name(id))] = Append(@, id)]
   /\ UNCHANGED <<rhl, rhbase, cmds, jobs, net, acks, stopped, fb, db, done, ran, futseen, maxfut>>
-  /\ UNCHANGED <<tohold, holdpt, stopcmd, cb>>
+  /\ UNCHANGED <<tohold, holdpt, stopcmd, cb, trig, fset>>
 
-NActive(qn) == Cardinality({i \in DOMAIN pool : QueueOf(W, Name(i)) = qn /\ Active(pool[i])})
+(* count_active_tasks: tasks waiting for job preparation (triggered, not yet preparing) count as active *)
+NActive(qn) == Cardinality({i \in DOMAIN pool : QueueOf(W, Name(i)) = qn /\ (Active(pool[i]) \/ i \in trig)})
 HeldIds == {i \in DOMAIN pool : pool[i].held}
 
 (* release_queued_tasks + prep_submit_task_jobs: FIFO release within the     *)
@@ -201,7 +206,21 @@ RECURSIVE Prepare(_, _)
 Prepare(pl, ids) ==
   IF ids = {} THEN pl
   ELSE LET i == CHOOSE x \in ids : TRUE
-       IN Prepare([pl EXCEPT ![i].st = "preparing", ![i].queued = FALSE, ![i].sub = @ + 1], ids \ {i})
+       IN Prepare([pl EXCEPT ![i].st = "preparing", ![i].queued = FALSE, ![i].sub = @ + 1, ![i].manual = FALSE], ids \ {i})
+(* (release_queued_tasks clears the queued flag of what it releases; the tasks of tasks_to_trigger_now are passed *)
+(*  to job preparation as they are)                                                                              *)
+RECURSIVE PrepareT(_, _)
+PrepareT(pl, ids) ==
+  IF ids = {} THEN pl
+  ELSE LET i == CHOOSE x \in ids : TRUE
+       IN PrepareT([pl EXCEPT ![i].st = "preparing", ![i].sub = @ + 1, ![i].manual = FALSE], ids \ {i})
+(* one history entry per job preparation *)
+\* (n tells a second preparation with the same submit number apart from the first - ran is a set)
+RanEntry(i) == [id |-> i, sub |-> pool[i].sub + 1, n |-> Cardinality({k \in ran : k.id = i /\ k.sub = pool[i].sub + 1}),
+                ready |-> ReadyByGraph(W, Name(i), Pt(i), done),
+                held |-> pool[i].held, manual |-> pool[i].manual,
+                beyond |-> Pt(i) > StopPt, retry |-> pool[i].sub > 0,
+                seqclash |-> \E j \in DOMAIN pool : j # i /\ Name(j) = Name(i) /\ Active(pool[j])]
 ReleaseQueue(qn) ==
   /\ stopped = "no"
   /\ LET rel == QueueRelease(q[qn], QueueLimit(W, qn), NActive(qn), HeldIds)
@@ -210,13 +229,9 @@ ReleaseQueue(qn) ==
         /\ pool' = Prepare(pool, ids)
         /\ q' = [q EXCEPT ![qn] = SelectSeq(@, LAMBDA i : i \notin ids)]
         /\ cmds' = cmds \cup {<<i, pool[i].sub + 1>> : i \in ids}
-        /\ ran' = ran \cup {[id |-> i, sub |-> pool[i].sub + 1, n |-> Cardinality(ran),
-                               ready |-> ReadyByGraph(W, Name(i), Pt(i), done),
-                               held |-> pool[i].held,
-                               beyond |-> Pt(i) > StopPt, retry |-> pool[i].sub > 0,
-                               seqclash |-> \E j \in DOMAIN pool : j # i /\ Name(j) = Name(i) /\ Active(pool[j])] : i \in ids}
+        /\ ran' = ran \cup {RanEntry(i) : i \in ids}
   /\ UNCHANGED <<rhl, rhbase, jobs, net, acks, stopped, fb, db, done, futseen, maxfut>>
-  /\ UNCHANGED <<tohold, holdpt, stopcmd, cb>>
+  /\ UNCHANGED <<tohold, holdpt, stopcmd, cb, trig, fset>>
 
 (* Scheduler.release_tasks_to_run: one call releases from every queue (the    *)
 (* queues are independent: a task belongs to exactly one), i.e. the          *)
@@ -226,18 +241,28 @@ ReleaseQueue(qn) ==
 ReleaseQueues ==
   /\ stopped = "no"
   /\ LET rel(qn) == Range(QueueRelease(q[qn], QueueLimit(W, qn), NActive(qn), HeldIds))
-         ids == UNION {rel(qn) : qn \in QNames}
+         qids == UNION {rel(qn) : qn \in QNames}
+         tids == trig \cap DOMAIN pool
+         ids == qids \cup tids
      IN /\ ids # {}
-        /\ pool' = Prepare(pool, ids)
-        /\ q' = [qn \in QNames |-> SelectSeq(q[qn], LAMBDA i : i \notin ids)]
+        /\ pool' = PrepareT(Prepare(pool, qids), tids \ qids)
+        /\ q' = [qn \in QNames |-> SelectSeq(q[qn], LAMBDA i : i \notin qids)]
         /\ cmds' = cmds \cup {<<i, pool[i].sub + 1>> : i \in ids}
-        /\ ran' = ran \cup {[id |-> i, sub |-> pool[i].sub + 1, n |-> Cardinality(ran),
-                               ready |-> ReadyByGraph(W, Name(i), Pt(i), done),
-                               held |-> pool[i].held,
-                               beyond |-> Pt(i) > StopPt, retry |-> pool[i].sub > 0,
-                               seqclash |-> \E j \in DOMAIN pool : j # i /\ Name(j) = Name(i) /\ Active(pool[j])] : i \in ids}
+        /\ ran' = ran \cup {RanEntry(i) : i \in ids}
+  /\ trig' = {}
   /\ UNCHANGED <<rhl, rhbase, jobs, net, acks, stopped, fb, db, done, futseen, maxfut>>
-  /\ UNCHANGED <<tohold, holdpt, stopcmd, cb>>
+  /\ UNCHANGED <<tohold, holdpt, stopcmd, cb, fset>>
+
+(* the manually triggered tasks of tasks_to_trigger_now are submitted by the same call, whatever their queue says *)
+ReleaseTriggered ==
+  /\ stopped = "no" /\ trig # {}
+  /\ LET ids == trig \cap DOMAIN pool
+     IN /\ pool' = PrepareT(pool, ids)
+        /\ cmds' = cmds \cup {<<i, pool[i].sub + 1>> : i \in ids}
+        /\ ran' = ran \cup {RanEntry(i) : i \in ids}
+  /\ trig' = {}
+  /\ UNCHANGED <<rhl, rhbase, q, jobs, net, acks, stopped, fb, db, done, futseen, maxfut>>
+  /\ UNCHANGED <<tohold, holdpt, stopcmd, cb, fset>>
 
 -----------------------------------------------------------------------------
 (* --------------------------- environment: jobs -------------------------- *)
@@ -252,7 +277,7 @@ EnvLaunch(c) ==
         /\ acks' = acks \cup {<<c[1], c[2], FALSE>>}
         /\ UNCHANGED <<jobs, net>>
   /\ UNCHANGED <<pool, rhl, rhbase, q, stopped, fb, db, done, ran, futseen, maxfut>>
-  /\ UNCHANGED <<tohold, holdpt, stopcmd, cb>>
+  /\ UNCHANGED <<tohold, holdpt, stopcmd, cb, trig, fset>>
 
 (* a job runs one step of its script and sends the message *)
 EnvJobStep(j) ==
@@ -261,7 +286,7 @@ EnvJobStep(j) ==
   /\ net' = IF stopped = "down" THEN net       \* nobody listens: the message is lost (a poll finds out later)
             ELSE [net EXCEPT ![j] = Append(@, jobs[j].script[jobs[j].pos + 1])]
   /\ UNCHANGED <<pool, rhl, rhbase, q, cmds, acks, stopped, fb, db, done, ran, futseen, maxfut>>
-  /\ UNCHANGED <<tohold, holdpt, stopcmd, cb>>
+  /\ UNCHANGED <<tohold, holdpt, stopcmd, cb, trig, fset>>
 
 -----------------------------------------------------------------------------
 (* --------------------------- message processing ------------------------- *)
@@ -273,12 +298,18 @@ Process(id, m, flag, msub) ==
   LET r == pool[id]
       eff == MsgEffect(W, Name(id), Rec(r), m, flag, msub)
       r2 == [r EXCEPT !.st = eff.r.st, !.outs = eff.r.outs, !.efail = eff.r.efail, !.sfail = eff.r.sfail,
-                      !.queued = IF eff.r.st # r.st THEN FALSE ELSE @]
+                      \* (the queued flag is cleared when a preparing task becomes submitted - by the message itself or as
+                      \*  an implied output; it can only be set on a task that has a job if the task was triggered twice,
+                      \*  see CmdTrigger)
+                      !.queued = IF r.st = "preparing" /\ eff.accepted
+                                    /\ (m = "submitted" \/ "submitted" \in eff.r.outs \ r.outs) THEN FALSE ELSE @]
       pl1 == [pool EXCEPT ![id] = r2]
       pl2 == FireOutputs(pl1, id, eff.fired)
   IN [pool |-> RemoveIfComplete(pl2, id),
       newdone |-> {<<Name(id), Pt(id), o>> : o \in eff.r.outs},
       rh |-> [fs \in FutChoices |-> RhAfter(pool, pl2, RemoveIfComplete(pl2, id), rhl, rhbase, maxfut, fs)]]
+
+QWithout(ids) == IF ids = {} THEN q ELSE [qn \in QNames |-> SelectSeq(q[qn], LAMBDA x : x \notin ids)]
 
 (* the submit command's callback reaches the scheduler *)
 SubmitCallback(a) ==
@@ -289,8 +320,9 @@ SubmitCallback(a) ==
           IN /\ pool' = res.pool /\ done' = done \cup res.newdone
              /\ \E fs \in FutChoices : futseen' = fs /\ \E r \in res.rh[fs] : rhl' = r.l /\ rhbase' = r.b /\ maxfut' = r.m
      ELSE UNCHANGED <<pool, done, rhl, rhbase, futseen, maxfut>>
-  /\ UNCHANGED <<q, cmds, jobs, net, stopped, fb, db, ran>>
-  /\ tohold' = HoldAfter /\ UNCHANGED ctl
+  /\ q' = QWithout(DOMAIN pool \ DOMAIN pool')     \* (TaskPool.remove takes the task out of its queue)
+  /\ UNCHANGED <<cmds, jobs, net, stopped, fb, db, ran>>
+  /\ tohold' = HoldAfter /\ trig' = trig \cap DOMAIN pool' /\ UNCHANGED <<holdpt, stopcmd, cb, fset>>
 
 (* a job message is delivered and processed (per-job FIFO unless reordering is on) *)
 Deliver(j, k, dup) ==
@@ -303,8 +335,9 @@ Deliver(j, k, dup) ==
           IN /\ pool' = res.pool /\ done' = done \cup res.newdone
              /\ \E fs \in FutChoices : futseen' = fs /\ \E r \in res.rh[fs] : rhl' = r.l /\ rhbase' = r.b /\ maxfut' = r.m
      ELSE UNCHANGED <<pool, done, rhl, rhbase, futseen, maxfut>>          \* task no longer in the pool: job record only
-  /\ UNCHANGED <<q, cmds, jobs, acks, stopped, db, ran>>
-  /\ tohold' = HoldAfter /\ UNCHANGED ctl
+  /\ q' = QWithout(DOMAIN pool \ DOMAIN pool')     \* (TaskPool.remove takes the task out of its queue)
+  /\ UNCHANGED <<cmds, jobs, acks, stopped, db, ran>>
+  /\ tohold' = HoldAfter /\ trig' = trig \cap DOMAIN pool' /\ UNCHANGED <<holdpt, stopcmd, cb, fset>>
 
 (* reliable, in-order, immediate delivery (no message network): the job's next message is processed at once *)
 JobStepDirect(j) ==
@@ -315,19 +348,20 @@ JobStepDirect(j) ==
           IN /\ pool' = res.pool /\ done' = done \cup res.newdone
              /\ \E fs \in FutChoices : futseen' = fs /\ \E r \in res.rh[fs] : rhl' = r.l /\ rhbase' = r.b /\ maxfut' = r.m
      ELSE UNCHANGED <<pool, done, rhl, rhbase, futseen, maxfut>>
-  /\ UNCHANGED <<q, cmds, net, acks, stopped, fb, db, ran>>
-  /\ tohold' = HoldAfter /\ UNCHANGED ctl
+  /\ q' = QWithout(DOMAIN pool \ DOMAIN pool')     \* (TaskPool.remove takes the task out of its queue)
+  /\ UNCHANGED <<cmds, net, acks, stopped, fb, db, ran>>
+  /\ tohold' = HoldAfter /\ trig' = trig \cap DOMAIN pool' /\ UNCHANGED <<holdpt, stopcmd, cb, fset>>
 
 -----------------------------------------------------------------------------
 (* --------------------------- operator commands -------------------------- *)
 (* Commands are executed between main-loop steps (process_command_queue);    *)
 (* a behaviour contains at most CmdBudget of them.                           *)
 ValidIds == {i \in Ids : ValidPoint(W, Name(i), Pt(i)) /\ InBounds(W, Pt(i))}
-CmdRest == <<rhl, rhbase, cmds, jobs, net, acks, stopped, fb, db, done, ran, futseen, maxfut>>
+CmdRest == <<rhl, rhbase, cmds, jobs, net, acks, stopped, fb, db, done, ran, futseen, maxfut, trig, fset>>
 
 (* cylc hold <id>: TaskPool.hold_tasks -> hold_active_task / tasks_to_hold *)
 CmdHold(i) ==
-  /\ stopped = "no" /\ cb > 0 /\ i \in ValidIds
+  /\ "hold" \in CmdKinds /\ stopped = "no" /\ cb > 0 /\ i \in ValidIds
   /\ pool' = [x \in DOMAIN pool |-> IF x = i THEN [pool[x] EXCEPT !.held = TRUE] ELSE pool[x]]
   /\ tohold' = tohold \cup {i}
   /\ cb' = cb - 1
@@ -339,7 +373,7 @@ RetryPending(pl, i) == pl[i].st = "waiting" /\ (pl[i].efail > 0 \/ pl[i].sfail >
 ReadyIn(pl, i) == pl[i].st = "waiting" /\ ~pl[i].rh /\ ~pl[i].held /\ PrereqsOK(W, Name(i), Pt(i), pl[i].sat)
 (* cylc release <id> (only ids on the hold list match) *)
 CmdRelease(i) ==
-  /\ stopped = "no" /\ cb > 0 /\ i \in tohold
+  /\ "release" \in CmdKinds /\ stopped = "no" /\ cb > 0 /\ i \in tohold
   /\ LET pl1 == [x \in DOMAIN pool |-> IF x = i THEN [pool[x] EXCEPT !.held = FALSE] ELSE pool[x]]
          toq == i \in DOMAIN pool /\ pool[i].held /\ ReadyIn(pl1, i) /\ ~pl1[i].queued
      IN \E doq \in (IF toq THEN (IF RetryPending(pool, i) THEN BOOLEAN ELSE {TRUE}) ELSE {FALSE}) :
@@ -351,7 +385,7 @@ CmdRelease(i) ==
 
 (* cylc hold --after=<point>: TaskPool.set_hold_point *)
 CmdHoldPoint(p) ==
-  /\ stopped = "no" /\ cb > 0 /\ p \in W.icp..W.fcp
+  /\ "holdpt" \in CmdKinds /\ stopped = "no" /\ cb > 0 /\ p \in W.icp..W.fcp
   /\ LET beyond == {i \in DOMAIN pool : Pt(i) > p}
      IN /\ pool' = [x \in DOMAIN pool |-> IF x \in beyond THEN [pool[x] EXCEPT !.held = TRUE] ELSE pool[x]]
         /\ tohold' = tohold \cup beyond
@@ -362,7 +396,7 @@ CmdHoldPoint(p) ==
 (* cylc release --all: TaskPool.release_hold_point (every pooled task is released; the ready ones are queued in *)
 (* the order get_tasks() yields them, which the model leaves open)                                              *)
 CmdReleaseHoldPoint ==
-  /\ stopped = "no" /\ cb > 0
+  /\ "relall" \in CmdKinds /\ stopped = "no" /\ cb > 0
   /\ LET pl1 == [x \in DOMAIN pool |-> [pool[x] EXCEPT !.held = FALSE]]
          cand == {i \in DOMAIN pool : pool[i].held /\ ReadyIn(pl1, i) /\ ~pl1[i].queued}
          must == {i \in cand : ~RetryPending(pool, i)}
@@ -378,7 +412,7 @@ CmdReleaseHoldPoint ==
 (* cylc stop <point>: TaskPool.set_stop_point.  If the cached limit lies beyond the new stop point it is pulled *)
 (* back and waiting tasks beyond the stop point return to the runahead pool (and leave their queue).            *)
 CmdStopPoint(p) ==
-  /\ stopped = "no" /\ cb > 0 /\ p \in W.icp..W.fcp /\ p # StopPt
+  /\ "stoppt" \in CmdKinds /\ stopped = "no" /\ cb > 0 /\ p \in W.icp..W.fcp /\ p # StopPt
   /\ stopcmd' = p
   /\ IF rhl # NoPoint /\ rhl > p
      THEN LET back == {i \in DOMAIN pool : Pt(i) > p /\ pool[i].st = "waiting"}
@@ -387,11 +421,68 @@ CmdStopPoint(p) ==
              /\ q' = [qn \in QNames |-> SelectSeq(q[qn], LAMBDA i : i \notin back)]
      ELSE UNCHANGED <<rhl, pool, q>>
   /\ cb' = cb - 1
-  /\ UNCHANGED <<rhbase, cmds, jobs, net, acks, stopped, fb, db, done, ran, futseen, maxfut, tohold, holdpt>>
+  /\ UNCHANGED <<rhbase, cmds, jobs, net, acks, stopped, fb, db, done, ran, futseen, maxfut, tohold, holdpt, trig, fset>>
+
+(* cylc trigger <id> for a pooled task (a group of one): commands.force_trigger_tasks + TaskPool.queue_or_trigger. *)
+(* A task with a job in process is left alone.  Otherwise all its prerequisites are satisfied, it is reset to    *)
+(* waiting, and it either goes to its queue (not queued yet and the queue is at its limit), or leaves its queue  *)
+(* / stays out of it and is submitted by the next release step whatever its queue, hold or runahead state says.  *)
+AllKeys(i) == AllAtomKeys(W, Name(i), Pt(i))
+               \cup (IF Name(i) \in W.seqtasks /\ PrevPoint(W, Name(i), Pt(i)) # NoPoint
+                     THEN {<<Name(i), PrevPoint(W, Name(i), Pt(i)), "succeeded">>} ELSE {})
+CmdTrigger(i) ==
+  /\ "trigger" \in CmdKinds /\ stopped = "no" /\ cb > 0 /\ i \in DOMAIN pool
+  /\ IF Active(pool[i]) THEN UNCHANGED <<pool, q, trig, fset>>
+     ELSE LET r0 == [pool[i] EXCEPT !.sat = @ \cup AllKeys(i), !.manual = TRUE, !.st = "waiting"]
+              qn == QueueOf(W, Name(i))
+              limited == QueueLimit(W, qn) > 0 /\ NActive(qn) >= QueueLimit(W, qn)
+          IN IF ~pool[i].queued /\ limited
+             THEN /\ pool' = [pool EXCEPT ![i] = [r0 EXCEPT !.queued = TRUE]]
+                  /\ q' = [q EXCEPT ![qn] = Append(@, i)]
+                  /\ UNCHANGED trig
+                  \* (triggered again while still on the trigger list: from now on it is in the queue *and* on the list)
+                  /\ fset' = IF i \in trig THEN fset \cup {i} ELSE fset
+             ELSE /\ pool' = [pool EXCEPT ![i] = [r0 EXCEPT !.queued = FALSE]]
+                  /\ q' = [q EXCEPT ![qn] = SelectSeq(@, LAMBDA x : x # i)]
+                  /\ trig' = trig \cup {i}
+                  /\ UNCHANGED fset
+  /\ cb' = cb - 1
+  /\ UNCHANGED <<rhl, rhbase, cmds, jobs, net, acks, stopped, fb, db, done, ran, futseen, maxfut, tohold, holdpt, stopcmd>>
+
+(* cylc set --out=<o> <id> for a pooled task: TaskPool._set_outputs_itask.  An output that is complete already is  *)
+(* skipped; otherwise it is processed as a forced message (implied outputs first), its children are spawned and  *)
+(* the task is removed if that completes it.  A task that is not waiting afterwards is no longer runahead-limited *)
+(* or queued.                                                                                                     *)
+CmdSetOut(i, o) ==
+  /\ "set" \in CmdKinds /\ stopped = "no" /\ cb > 0 /\ i \in DOMAIN pool /\ o \in SetOuts
+  /\ LET r == pool[i]
+         \* (an output the task does not have is dropped with a warning)
+         skip == o \in r.outs \/ o \notin StdOuts \cup W.customs[Name(i)]
+         eff == IF skip THEN [r |-> Rec(r), fired |-> {}] ELSE ForcedEffect(W, Name(i), Rec(r), o)
+         r2 == [r EXCEPT !.st = eff.r.st, !.outs = eff.r.outs, !.sfail = eff.r.sfail]
+         pl1 == [pool EXCEPT ![i] = r2]
+         pl2 == FireOutputs(pl1, i, eff.fired)
+         pl3 == RemoveIfComplete(pl2, i)
+         pl4 == IF i \in DOMAIN pl3 /\ pl3[i].st # "waiting" THEN [pl3 EXCEPT ![i].rh = FALSE, ![i].queued = FALSE] ELSE pl3
+         unq == i \notin DOMAIN pl3 \/ pl3[i].st # "waiting"
+     IN /\ pool' = pl4
+        /\ q' = IF unq THEN [qn \in QNames |-> SelectSeq(q[qn], LAMBDA x : x # i)] ELSE q
+        /\ done' = done \cup {<<Name(i), Pt(i), x>> : x \in eff.r.outs}
+        /\ fset' = IF skip THEN fset ELSE fset \cup {i}
+        /\ \E fs \in FutChoices : futseen' = fs /\ \E x \in RhAfter(pool, pl2, pl3, rhl, rhbase, maxfut, fs) : rhl' = x.l /\ rhbase' = x.b /\ maxfut' = x.m
+  /\ tohold' = HoldAfter /\ trig' = trig \cap DOMAIN pool'
+  /\ cb' = cb - 1
+  /\ UNCHANGED <<cmds, jobs, net, acks, stopped, fb, db, ran, holdpt, stopcmd>>
 
 -----------------------------------------------------------------------------
 (* ----------------------- database, stop, crash, restart ----------------- *)
-DbImage == [has |-> TRUE, pool |-> pool, tohold |-> tohold, holdpt |-> holdpt, stopcmd |-> stopcmd]
+(* task_states.is_manual_submit is written with each status change: while a task is preparing the row still  *)
+(* says whether that job was triggered manually (in memory the flag is cleared when the job is prepared)      *)
+DbPool == [i \in DOMAIN pool |->
+             IF pool[i].st = "preparing"
+             THEN [pool[i] EXCEPT !.manual = \E k \in ran : k.id = i /\ k.sub = pool[i].sub /\ k.manual]
+             ELSE pool[i]]
+DbImage == [has |-> TRUE, pool |-> DbPool, tohold |-> tohold, holdpt |-> holdpt, stopcmd |-> stopcmd]
 EmptyQs == [n \in QNames |-> <<>>]
 NoNet == [j \in DOMAIN net |-> <<>>]
 
@@ -400,16 +491,17 @@ NoNet == [j \in DOMAIN net |-> <<>>]
 Commit ==
   /\ stopped = "no" /\ fb.crash > 0 /\ db # DbImage      \* (the image only matters while a crash can still happen)
   /\ db' = DbImage
-  /\ UNCHANGED <<pool, rhl, rhbase, q, cmds, jobs, net, acks, stopped, fb, done, ran, futseen, maxfut, tohold, holdpt, stopcmd, cb>>
+  /\ UNCHANGED <<pool, rhl, rhbase, q, cmds, jobs, net, acks, stopped, fb, done, ran, futseen, maxfut, tohold, holdpt, stopcmd, cb, trig, fset>>
 
 (* cylc stop --now: the process pool is drained (pending commands run and their callbacks are processed),     *)
 (* everything is committed, the process exits; jobs carry on, what they send meanwhile is lost               *)
 StopNow ==
-  /\ stopped = "no" /\ cb > 0 /\ cmds = {} /\ acks = {}
+  /\ "stopnow" \in CmdKinds /\ stopped = "no" /\ cb > 0 /\ cmds = {} /\ acks = {}
   /\ db' = DbImage
   /\ stopped' = "down" /\ cb' = cb - 1
   /\ pool' = <<>> /\ q' = EmptyQs /\ net' = NoNet /\ rhl' = NoPoint /\ rhbase' = NoPoint /\ maxfut' = 0
-  /\ UNCHANGED <<cmds, jobs, acks, fb, done, ran, futseen, tohold, holdpt, stopcmd>>
+  /\ trig' = {}
+  /\ UNCHANGED <<cmds, jobs, acks, fb, done, ran, futseen, tohold, holdpt, stopcmd, fset>>
 
 (* the scheduler process dies: nothing is committed, commands in the process pool and their results are gone *)
 Crash ==
@@ -418,7 +510,8 @@ Crash ==
   /\ stopped' = "down"
   /\ pool' = <<>> /\ q' = EmptyQs /\ net' = NoNet /\ cmds' = {} /\ acks' = {}
   /\ rhl' = NoPoint /\ rhbase' = NoPoint /\ maxfut' = 0
-  /\ UNCHANGED <<jobs, db, done, ran, futseen, tohold, holdpt, stopcmd, cb>>
+  /\ trig' = {}
+  /\ UNCHANGED <<jobs, db, done, ran, futseen, tohold, holdpt, stopcmd, cb, fset>>
 
 (* restart: the pool is rebuilt from the database (TaskPool.load_db_task_pool_for_restart): a task that was    *)
 (* preparing comes back waiting with its previous submit number; every unfinished task comes back runahead-   *)
@@ -426,39 +519,62 @@ Crash ==
 Restored(r) == [r EXCEPT !.st = IF r.st = "preparing" THEN "waiting" ELSE @,
                          !.sub = IF r.st = "preparing" THEN @ - 1 ELSE @,
                          \* (all tasks load runahead-limited, except failed / succeeded / expired ones - submit-failed stays limited)
-                         !.rh = r.st \notin {"failed", "succeeded", "expired"}, !.queued = FALSE]
+                         \* (... and manually triggered ones)
+                         !.rh = r.st \notin {"failed", "succeeded", "expired"} /\ ~r.manual, !.queued = FALSE]
 Restart ==
   /\ stopped = "down" /\ db.has
   /\ stopped' = "no"
-  /\ pool' = [i \in DOMAIN db.pool |-> Restored(db.pool[i])]
+  \* (Scheduler.start_scheduler: "if we shut down with manually triggered waiting tasks, submit them to run now")
+  /\ LET pl == [i \in DOMAIN db.pool |-> Restored(db.pool[i])]
+         ids == {i \in DOMAIN pl : pl[i].manual /\ pl[i].st = "waiting"}
+     IN /\ pool' = Prepare(pl, ids)
+        /\ cmds' = cmds \cup {<<i, pl[i].sub + 1>> : i \in ids}
+        /\ ran' = ran \cup {[id |-> i, sub |-> pl[i].sub + 1, n |-> Cardinality({k \in ran : k.id = i /\ k.sub = pl[i].sub + 1}), ready |-> ReadyByGraph(W, Name(i), Pt(i), done),
+                               held |-> pl[i].held, manual |-> TRUE, beyond |-> Pt(i) > (IF db.stopcmd # NoPoint THEN db.stopcmd ELSE IF StopAt = NoPoint THEN W.fcp ELSE StopAt),
+                               retry |-> pl[i].sub > 0,
+                               seqclash |-> \E j \in DOMAIN pl : j # i /\ Name(j) = Name(i) /\ Active(pl[j])] : i \in ids}
   /\ tohold' = db.tohold /\ holdpt' = db.holdpt /\ stopcmd' = db.stopcmd
   \* (a new process: the task definitions' lazily filled future offsets start afresh)
   /\ futseen' \in {f \in [W.tasks -> 0..Max({0} \cup UNION {PosOffsets(t) : t \in W.tasks})] :
                        \A t \in W.tasks : f[t] = 0 \/ f[t] \in PosOffsets(t)}
   /\ maxfut' \in 0..MaxFutWith(db.pool, futseen')
-  /\ UNCHANGED <<rhl, rhbase, q, cmds, jobs, net, acks, fb, db, done, ran, cb>>
+  \* (add_to_pool recomputes the limit at once when a loaded task changes the pool's largest future offset; the base
+  \*  point it sees is that of the tasks loaded so far)
+  /\ IF maxfut' = 0 THEN UNCHANGED <<rhl, rhbase>>
+     ELSE \E b \in PtSet(db.pool) :
+             /\ rhbase' = b
+             /\ rhl' = RunaheadLimit(W, b, maxfut', IF db.stopcmd # NoPoint THEN db.stopcmd ELSE IF StopAt = NoPoint THEN W.fcp ELSE StopAt)
+  /\ UNCHANGED <<q, jobs, net, acks, fb, db, done, cb, trig, fset>>
 
 (* a poll (after a restart, or routine) reports what the job has done: the custom messages it has sent and its *)
 (* latest status                                                                                              *)
 Poll(j, k) ==
   /\ (Faults.crash > 0 \/ CmdBudget > 0)      \* (configurations without stop / crash / commands do not poll)
   /\ stopped = "no" /\ j \in DOMAIN jobs /\ k \in 1..jobs[j].pos
-  /\ j[1] \in DOMAIN pool /\ pool[j[1]].sub = j[2] /\ Active(pool[j[1]])
+  \* (active tasks; and a task finished by hand whose job is still alive: the job's next message would move the task
+  \*  backwards, which makes the scheduler poll the job)
+  /\ j[1] \in DOMAIN pool /\ pool[j[1]].sub = j[2] /\ (Active(pool[j[1]]) \/ j[1] \in fset)
   /\ (k = jobs[j].pos \/ jobs[j].script[k] \in W.customs[Name(j[1])])
   /\ LET res == Process(j[1], jobs[j].script[k], "polled", j[2])
      IN /\ pool' = res.pool /\ done' = done \cup res.newdone
         /\ \E fs \in FutChoices : futseen' = fs /\ \E r \in res.rh[fs] : rhl' = r.l /\ rhbase' = r.b /\ maxfut' = r.m
-  /\ UNCHANGED <<q, cmds, jobs, net, acks, stopped, fb, db, ran>>
-  /\ tohold' = HoldAfter /\ UNCHANGED ctl
+  /\ q' = QWithout(DOMAIN pool \ DOMAIN pool')     \* (TaskPool.remove takes the task out of its queue)
+  /\ UNCHANGED <<cmds, jobs, net, acks, stopped, fb, db, ran>>
+  /\ tohold' = HoldAfter /\ trig' = trig \cap DOMAIN pool' /\ UNCHANGED <<holdpt, stopcmd, cb, fset>>
 
 -----------------------------------------------------------------------------
 (* ------------------------- shutdown and stall --------------------------- *)
-Quiet == cmds = {} /\ acks = {} /\ \A j \in DOMAIN jobs : jobs[j].pos = Len(jobs[j].script) /\ net[j] = <<>>
+(* (jobs orphaned by "cylc set" - their task was completed by hand and has left the pool, or is no longer in the *)
+(*  state its job implies - do not count: the stall test only looks at the pool)                               *)
+Orphan(j) == IF j[1] \notin DOMAIN pool THEN TRUE ELSE (j[1] \in fset \/ pool[j[1]].sub # j[2])
+Quiet == /\ \A c \in cmds : Orphan(c)
+         /\ \A a \in acks : Orphan(<<a[1], a[2]>>)
+         /\ \A j \in DOMAIN jobs : Orphan(j) \/ (jobs[j].pos = Len(jobs[j].script) /\ net[j] = <<>>)
 NothingToDo ==
   /\ \A i \in DOMAIN pool : ~Active(pool[i]) /\ ~(pool[i].st = "waiting" /\ ~pool[i].rh)
 (* Scheduler.check_auto_shutdown *)
 AutoShutdown ==
-  /\ stopped = "no"
+  /\ stopped = "no" /\ trig = {}
   /\ \A i \in DOMAIN pool : /\ ~Active(pool[i])
                             /\ ~(pool[i].st = "waiting" /\ ~pool[i].rh /\ Pt(i) <= StopPt)
                             /\ ~Final(pool[i])
@@ -466,18 +582,18 @@ AutoShutdown ==
   /\ ~ENABLED ReleaseRunahead /\ ~ENABLED ComputeRunahead
   /\ stopped' = "auto"
   /\ UNCHANGED <<pool, rhl, rhbase, q, cmds, jobs, net, acks, fb, db, done, ran, futseen, maxfut>>
-  /\ UNCHANGED <<tohold, holdpt, stopcmd, cb>>
+  /\ UNCHANGED <<tohold, holdpt, stopcmd, cb, trig, fset>>
 
 (* TaskPool.is_stalled *)
 Stall ==
-  /\ stopped = "no"
+  /\ stopped = "no" /\ trig = {}
   /\ \A i \in DOMAIN pool : ~Active(pool[i]) /\ ~(Ready(i))
   /\ \E i \in DOMAIN pool : Final(pool[i]) \/ (pool[i].st = "waiting" /\ ~pool[i].rh /\ Pt(i) <= StopPt)
   /\ ~ENABLED ReleaseRunahead /\ ~ENABLED ComputeRunahead
   /\ Quiet
   /\ stopped' = "stalled"
   /\ UNCHANGED <<pool, rhl, rhbase, q, cmds, jobs, net, acks, fb, db, done, ran, futseen, maxfut>>
-  /\ UNCHANGED <<tohold, holdpt, stopcmd, cb>>
+  /\ UNCHANGED <<tohold, holdpt, stopcmd, cb, trig, fset>>
 
 -----------------------------------------------------------------------------
 RECURSIVE LoadFirst(_, _)
@@ -488,7 +604,7 @@ LoadFirst(pl, ts) ==
        IN LoadFirst(IF p # NoPoint /\ InBounds(W, p) THEN Add(pl, <<t, p>>) ELSE pl, ts \ {t})
 
 Init ==
-  /\ tohold = {} /\ holdpt = NoPoint /\ stopcmd = NoPoint /\ cb = CmdBudget
+  /\ tohold = {} /\ holdpt = NoPoint /\ stopcmd = NoPoint /\ cb = CmdBudget /\ trig = {} /\ fset = {}
   /\ rhl = NoPoint /\ rhbase = NoPoint
   /\ q = [n \in QNames |-> <<>>]
   /\ cmds = {} /\ jobs = <<>> /\ net = <<>> /\ acks = {}
@@ -506,6 +622,7 @@ Next ==
   \/ ReleaseRunahead
   \/ \E id \in DOMAIN pool : QueueIfReady(id)
   \/ \E qn \in QNames : ReleaseQueue(qn)
+  \/ ReleaseTriggered
   \/ \E c \in cmds : EnvLaunch(c)
   \/ \E j \in DOMAIN jobs : EnvJobStep(j)
   \/ \E j \in DOMAIN jobs : JobStepDirect(j)
@@ -517,6 +634,8 @@ Next ==
   \/ \E i \in tohold : CmdRelease(i)
   \/ \E p \in W.icp..W.fcp : CmdHoldPoint(p) \/ CmdStopPoint(p)
   \/ CmdReleaseHoldPoint
+  \/ \E i \in DOMAIN pool : CmdTrigger(i)
+  \/ \E i \in DOMAIN pool : \E o \in SetOuts : CmdSetOut(i, o)
   \/ Commit \/ StopNow \/ Crash \/ Restart
   \/ \E j \in DOMAIN jobs : \E k \in 1..jobs[j].pos : Poll(j, k)
 
@@ -528,14 +647,14 @@ LiveSpec == Spec /\ Fairness
 (* ------------------------------ properties ------------------------------ *)
 (* C01: a job is prepared only when its graph prerequisites hold over the    *)
 (* outputs actually completed upstream, on sequence and within bounds.      *)
-C01_SubmitOnlyIfSatisfied == \A k \in ran : k.ready
+C01_SubmitOnlyIfSatisfied == \A k \in ran : k.ready \/ k.manual
 C01_OnSequenceInBounds == \A k \in ran : ValidPoint(W, Name(k.id), Pt(k.id)) /\ InBounds(W, Pt(k.id))
 
 (* C02: submit numbers of one instance are 1..n, bounded by (N+1)(M+1)       *)
-C02_RetryBound == \A k \in ran : k.sub <= (W.eretry[Name(k.id)] + 1) * (W.sretry[Name(k.id)] + 1)
+C02_RetryBound == \A k \in ran : (k.id \notin fset /\ ~\E k2 \in ran : k2.id = k.id /\ k2.manual) => k.sub <= (W.eretry[Name(k.id)] + 1) * (W.sretry[Name(k.id)] + 1)
 C02_NoDuplicateSubmitNum == \A k1, k2 \in ran : (k1.id = k2.id /\ k1.sub = k2.sub) => k1 = k2
 C02_FailOutputOnlyWhenNoRetry ==
-  \A i \in DOMAIN pool : ("failed" \in pool[i].outs => pool[i].efail >= W.eretry[Name(i)])
+  \A i \in DOMAIN pool \ fset : ("failed" \in pool[i].outs => pool[i].efail >= W.eretry[Name(i)])
                       /\ ("submit-failed" \in pool[i].outs => pool[i].sfail >= W.sretry[Name(i)])
 
 (* C03: the scheduler shuts down only when quiescent *)
@@ -549,6 +668,7 @@ C03_StallIsReal == stopped = "stalled" => \A i \in DOMAIN pool : ~Active(pool[i]
 (* limit shrinks again when the last pooled task with a future offset leaves, and tasks already released stay  *)
 (* released.                                                                                                   *)
 C04_ReleaseStepOK ==
+  cb' = cb =>      \* (cylc set makes a task that is no longer waiting leave the runahead pool whatever the limit)
   \A i \in DOMAIN pool \cap DOMAIN pool' : (pool[i].rh /\ ~pool'[i].rh) => (rhl # NoPoint /\ Pt(i) <= rhl)
 C04_ReleaseStep == [][C04_ReleaseStepOK]_vars
 C04_ReleasedWithinLimit ==
@@ -560,6 +680,7 @@ C04_CachedLimitNotAhead ==
      => rhl <= RunaheadLimit(W, BasePoint(pool), PoolMaxFut(pool), StopPt)
 (* the statement of C04 itself: a task is released only at or below the limit of the pool as it is then *)
 C04_ReleaseWithinFormulaOK ==
+  cb' = cb =>
   \A i \in DOMAIN pool \cap DOMAIN pool' :
      (pool[i].rh /\ ~pool'[i].rh) => Pt(i) <= RunaheadLimit(W, BasePoint(pool), PoolMaxFut(pool), StopPt)
 C04_ReleaseWithinFormula == [][C04_ReleaseWithinFormulaOK]_vars
@@ -568,19 +689,21 @@ C04_ReleaseWithinFormula == [][C04_ReleaseWithinFormulaOK]_vars
 C04_MaxFutCacheNotAhead == maxfut <= PoolMaxFut(pool)
 
 (* C05: queue limits *)
+NoManual == (\A k \in ran : ~k.manual) /\ fset = {}       \* no job was triggered manually and no output was set by hand so far
 C05_LimitRespected ==
-  \A qn \in QNames : QueueLimit(W, qn) > 0 => NActive(qn) <= QueueLimit(W, qn)
+  NoManual => \A qn \in QNames : QueueLimit(W, qn) > 0 =>
+                 Cardinality({i \in DOMAIN pool : QueueOf(W, Name(i)) = qn /\ Active(pool[i])}) <= QueueLimit(W, qn)
 C05_QueuedInOwnQueue == \A qn \in QNames : \A k \in DOMAIN q[qn] : QueueOf(W, Name(q[qn][k])) = qn
 
 (* C07: bounds *)
 C07_PoolWithinBounds == \A i \in DOMAIN pool : InBounds(W, Pt(i)) /\ ValidPoint(W, Name(i), Pt(i))
 (* (judged against the stop point in force when the job was prepared; the retry of a task that was already     *)
 (*  active when the stop point took effect is the known finding C07/C43 ..._RetryOfActiveTask, kept apart)     *)
-C07_NoSubmitBeyondStop == \A k \in ran : k.beyond => k.retry
+C07_NoSubmitBeyondStop == \A k \in ran : k.beyond => (k.retry \/ k.manual)
 C07_NoSubmitBeyondStop_RetryOfActiveTask == \A k \in ran : ~(k.beyond /\ k.retry)
 
 (* C06: holds *)
-C06_HeldNeverPrepared == \A k \in ran : ~k.held
+C06_HeldNeverPrepared == \A k \in ran : ~k.held \/ k.manual
 C06_HoldListMatchesFlags ==
   \A i \in DOMAIN pool : pool[i].held <=> (i \in tohold)
 C06_BeyondHoldPointHeld ==
@@ -594,7 +717,7 @@ C09_ImpliedOutputsSettled == C09_ImpliedOutputs
 C09_Step ==
   \A i \in DOMAIN pool \cap DOMAIN pool' :
      /\ pool[i].outs \subseteq pool'[i].outs
-     /\ pool[i].st # pool'[i].st => Lifecycle(pool[i].st, pool'[i].st, pool'[i].st = "waiting")
+     /\ (pool[i].st # pool'[i].st /\ cb' = cb /\ ~pool[i].manual /\ i \notin fset) => Lifecycle(pool[i].st, pool'[i].st, pool'[i].st = "waiting")
 C09_Lifecycle == [][C09_Step]_vars
 
 (* C11: finished tasks are retained exactly when incomplete *)
@@ -602,12 +725,19 @@ C11_RetainedOnlyIfIncomplete == \A i \in DOMAIN pool : Final(pool[i]) => ~Comple
 
 (* C31: sequential tasks never overlap *)
 C31_NoOverlap ==
-  \A i, j \in DOMAIN pool : (i # j /\ Name(i) = Name(j) /\ Name(i) \in W.seqtasks) => ~(Active(pool[i]) /\ Active(pool[j]))
-C31_NoClashAtPrepare == \A k \in ran : Name(k.id) \in W.seqtasks => ~k.seqclash
+  NoManual => \A i, j \in DOMAIN pool : (i # j /\ Name(i) = Name(j) /\ Name(i) \in W.seqtasks) => ~(Active(pool[i]) /\ Active(pool[j]))
+C31_NoClashAtPrepare == NoManual => \A k \in ran : Name(k.id) \in W.seqtasks => ~k.seqclash
 
 (* C26: bookkeeping *)
+InQueue(i) == \E qn \in QNames : \E k \in DOMAIN q[qn] : q[qn][k] = i
+C26_QueuedFlagMatchesQueueStrict == \A i \in DOMAIN pool : pool[i].queued <=> InQueue(i)
+(* With cylc trigger only one direction holds for a task triggered twice before the next release step: the second *)
+(* trigger puts it into its queue (the queue counts the task itself as active) while it stays on the trigger      *)
+(* list; it is submitted from the list, loses the flag when the job is submitted, but stays in the queue and is   *)
+(* released from it once more later (observation of DESIGN.md section 9: TLC refutes the strict form on MC_trig   *)
+(* with two commands, and the real scheduler does the same).  Such ids are recorded in fset.                      *)
 C26_QueuedFlagMatchesQueue ==
-  \A i \in DOMAIN pool : pool[i].queued <=> \E qn \in QNames : \E k \in DOMAIN q[qn] : q[qn][k] = i
+  \A i \in DOMAIN pool : (pool[i].queued => InQueue(i)) /\ (i \notin fset => (InQueue(i) => pool[i].queued))
 
 (* Termination: every behaviour ends shut down or stalled (liveness, under fairness) *)
 Terminates == <>(stopped # "no")
